@@ -294,6 +294,11 @@ func (pf *ProofBobWC) Verify(Session []byte, ec elliptic.Curve, pk *paillier.Pub
 	// 4. runs only in the "with check" mode from Fig. 10
 	if X != nil {
 		s1ModQ := new(big.Int).Mod(pf.S1, ec.Params().N)
+		// g^0 is the point at infinity, which ScalarBaseMult cannot represent (it panics); an honest
+		// s1 = e*x + alpha is 0 modulo the group order with negligible probability only
+		if s1ModQ.Sign() == 0 || e.Sign() == 0 {
+			return false
+		}
 		gS1 := crypto.ScalarBaseMult(ec, s1ModQ)
 		xEU, err := X.ScalarMult(e).Add(pf.U)
 		if err != nil || !gS1.Equals(xEU) {
